@@ -26,6 +26,7 @@ EXPLANATION = (
     ' (Z7) no row is folded into another before the counting stages (shared with C05-P1, duplicates); (Z8) the MCS search marks every row that is unsolved at its start.'
     ' (Z9) the statistics of a cached batch were computed under the settings in force (shared with C12-K1).'
     ' (Z10) the statistics stored in a cache entry are the dictionary handed to the pipeline (shared with C12-K3). (Z11) no attribute of a long-lived stage object carries counts from one batch to the next (shared with C06-B7).'
+    ' (Z12) nobody edits a container that is a parameter default (shared with C06-B13).'
 )
 ASSUMPTIONS = ["that every row the imputer counted as solved survives validation is data-dependent and not decided"]
 
